@@ -367,3 +367,167 @@ func H_C16_Save(shape int) {
 		}
 	}
 }
+
+// ---- table contents: sequences of Save / upsert / FirstOrCreate / FirstOrInit over a
+// small key space, executed on the relational model (validated against SQLite):
+// after every operation the table holds exactly the rows the documented rules define
+
+type c16Row struct {
+	id, age, score int
+	name           string
+}
+
+func N_C16_Table(tier int) int {
+	if tier > 0 {
+		return 3
+	}
+	return 2
+}
+
+func H_C16_Table(shape int) {
+	nops := 1 + shape
+	narrow := shape >= 2 // three operations: a narrower alphabet
+	mdb := NewMemDB()
+	items := mdb.AddTable("items", []string{"id", "name", "age", "score"}, []string{"id"})
+	model := []c16Row{{1, 10, 5, "a"}, {2, 20, 6, "a"}}
+	for _, r := range model {
+		items.AddRow(r.id, r.name, r.age, r.score)
+	}
+	mdb.Snapshot()
+	s := NewStore()
+	s.OnExecE = mdb.Exec
+	s.OnQuery = mdb.Query
+	db := openReal(stubDialector{}, s, nil)
+	label := "table"
+	defer func() { mdb.Dump(label) }()
+	find := func(id int) int {
+		for i := range model {
+			if model[i].id == id {
+				return i
+			}
+		}
+		return -1
+	}
+	nextID := func() int {
+		m := 0
+		for _, r := range model {
+			if r.id > m {
+				m = r.id
+			}
+		}
+		return m + 1
+	}
+	kindNames := []string{"Save", "DoNothing", "DoUpdates", "UpdateAll", "FirstOrCreate", "FirstOrInit"}
+	for k := 0; k < nops; k++ {
+		tag := "op" + string([]byte{byte('0' + k)})
+		kind := verifrt.Concretize(verifrt.Intn(tag+"_kind", 0, 5), 0, 5)
+		if narrow {
+			verifrt.Assume(kind == 0 || kind == 3 || kind == 4)
+		}
+		// key: 0 (none given), an existing row (1, 2) or a key without a row (7)
+		key := []int{0, 1, 2, 7}[verifrt.Concretize(verifrt.Intn(tag+"_key", 0, 3), 0, 3)]
+		if narrow {
+			verifrt.Assume(key == 1 || key == 7)
+		}
+		name := []string{"a", "n"}[verifrt.Concretize(verifrt.Intn(tag+"_name", 0, 1), 0, 1)]
+		age := verifrt.Intn(tag+"_age", 0, 2) // zero included: Save and the upsert rules write zero values too
+		score := 30 + k
+		label += "." + kindNames[kind]
+		verifrt.Tag(label)
+		n0 := s.Count("EXEC")
+		var err error
+		var out Item
+		switch kind {
+		case 0:
+			it := Item{ID: uint(key), Name: name, Age: age, Score: int64(score)}
+			err = db.Save(&it).Error
+			out = it
+		case 1, 2, 3:
+			oc := clause.OnConflict{DoNothing: true}
+			if kind == 2 {
+				oc = clause.OnConflict{Columns: []clause.Column{{Name: "id"}}, DoUpdates: clause.AssignmentColumns([]string{"age"})}
+			} else if kind == 3 {
+				oc = clause.OnConflict{UpdateAll: true}
+			}
+			it := Item{ID: uint(key), Name: name, Age: age, Score: int64(score)}
+			err = db.Clauses(oc).Create(&it).Error
+			out = it
+		case 4:
+			err = db.Where(Item{Name: name}).Attrs(Item{Age: 40}).Assign(Item{Score: int64(score)}).FirstOrCreate(&out).Error
+		case 5:
+			err = db.Where(Item{Name: name}).Attrs(Item{Age: 40}).Assign(Item{Score: int64(score)}).FirstOrInit(&out).Error
+		}
+		verifrt.Assert(err == nil, "C16.error:"+label)
+		writes := s.Count("EXEC") - n0
+		// the reference model
+		switch kind {
+		case 0, 3:
+			if i := find(key); i >= 0 {
+				model[i] = c16Row{key, age, score, name}
+			} else {
+				id := key
+				if id == 0 {
+					id = nextID()
+				}
+				model = append(model, c16Row{id, age, score, name})
+				verifrt.Assert(int(out.ID) == id, "C16.key-not-filled:"+label)
+			}
+		case 1:
+			if find(key) < 0 {
+				id := key
+				if id == 0 {
+					id = nextID()
+				}
+				model = append(model, c16Row{id, age, score, name})
+			}
+		case 2:
+			if i := find(key); i >= 0 {
+				model[i].age = age
+			} else {
+				id := key
+				if id == 0 {
+					id = nextID()
+				}
+				model = append(model, c16Row{id, age, score, name})
+			}
+		case 4, 5:
+			first := -1
+			for i := range model {
+				if model[i].name == name && (first < 0 || model[i].id < model[first].id) {
+					first = i
+				}
+			}
+			want := c16Row{0, 40, score, name}
+			if first >= 0 {
+				want = model[first]
+				want.score = score
+				if kind == 4 {
+					model[first].score = score
+				}
+			} else if kind == 4 {
+				want.id = nextID()
+				model = append(model, want)
+			}
+			verifrt.Assert(int(out.ID) == want.id && out.Name == want.name && out.Age == want.age && int(out.Score) == want.score, "C16.returned-record:"+label)
+			if kind == 5 {
+				verifrt.Assert(writes == 0, "C16.first-or-init-wrote:"+label)
+			} else {
+				verifrt.Assert(writes <= 1, "C16.first-or-create-writes:"+label)
+			}
+		}
+		verifrt.Reach("op-applied")
+		// the table holds exactly the model's rows (in insertion order)
+		verifrt.Assert(len(items.rows) == len(model), "C16.table-rows:"+label)
+		for i := range model {
+			if i >= len(items.rows) {
+				break
+			}
+			r := items.rows[i]
+			verifrt.Assert(!r[0].null && r[0].i == model[i].id, "C16.table-rows:"+label)
+			verifrt.Assert(r[1].str && r[1].i == internStr(model[i].name), "C16.table-values:"+label)
+			verifrt.Assert(!r[2].null && r[2].i == model[i].age, "C16.table-values:"+label)
+			verifrt.Assert(!r[3].null && r[3].i == model[i].score, "C16.table-values:"+label)
+		}
+	}
+	verifrt.Observe("log", s.Kinds())
+}
